@@ -8,10 +8,10 @@ out=${2:-/tmp/regress_seeds_$seed.out}
 if [ -n "$(git -C /repo status --porcelain --untracked-files=no)" ]; then echo "/repo is not clean"; exit 2; fi
 for d in seeded/*/; do
   name=$(basename $d); prop=${name%-*}
-  if ! git -C /repo apply --check $d/patch.diff 2>/dev/null; then echo "$name does-not-apply" >> $out; continue; fi
-  git -C /repo apply $d/patch.diff
+  if ! git -C /repo apply --check "$PWD/$d/patch.diff" 2>/dev/null; then echo "$name does-not-apply" >> $out; continue; fi
+  git -C /repo apply "$PWD/$d/patch.diff"
   VERIF_SEED=$seed ./check $prop --tier quick > /tmp/regress_one.log 2>&1; rc=$?
-  git -C /repo apply -R $d/patch.diff || git -C /repo checkout -- .
+  git -C /repo apply -R "$PWD/$d/patch.diff" || git -C /repo checkout -- .
   echo "$name rc=$rc $(grep -E '^\[C' /tmp/regress_one.log | sed 's/.*disagreements/disagreements/')" >> $out
 done
 grep -c "rc=1" $out; grep -v "rc=1" $out
